@@ -332,6 +332,7 @@ func allChecksRaw() []*Check {
 				{Name: "C10.units", Pkg: "gtree", Entry: "VerifC10Units", N: 0, FSModel: true, RealParse: true, Expect: []string{"C10.err.units/same-unit", "C10.err.units/mixed-units"}},
 				gjf("C10.exists", "VerifC10Exists", 0, "C10.exists.simple", "C10.exists.err", "C10.exists.fs/partial"),
 				gjf("C10.reuse.n2", "VerifC10Reuse", 2, "C10.reuse.simple", "C10.reuse.err", "C10.reuse.same", "C10.reuse.end"),
+				{Name: "C10.big.wyield", Pkg: "gtree", Entry: "VerifC10Big", N: 0, FSModel: true, RealParse: true, Sched: "fifo-wyield", Expect: []string{"C10.big.simple", "C10.big.nil", "C10.big.same", "C10.big.end"}},
 			},
 			Thorough: []Job{
 				gjf("C10.reuse.n3", "VerifC10Reuse", 3, "C10.reuse.simple", "C10.reuse.err", "C10.reuse.same", "C10.reuse.end"),
